@@ -6,6 +6,7 @@ mod doc;
 mod form;
 mod gen;
 mod hdr;
+mod isolate;
 mod lang;
 mod langgen;
 mod langdoc;
@@ -44,6 +45,9 @@ fn main() {
             let code = checks::replay_file(std::path::Path::new(&file), &known, true);
             std::process::exit(code)
         }
+        Some("worker") => std::process::exit(isolate::worker_main(&args[2..], &checks::case_fn)),
+        Some("worker-one") => std::process::exit(isolate::worker_one_main(&args[2..], &checks::case_fn)),
+        Some("c17-probe") => std::process::exit(checks::c17::probe_main()),
         Some("sexp") => {
             let file = args.get(2).cloned().unwrap_or_else(|| usage());
             let src = std::fs::read_to_string(&file).expect("read file");
